@@ -127,8 +127,9 @@ def s_segseg(a1, a2, b1, b2, steps=0):
     """Minimum distance between two short arcs (street scale): local tangent-plane computation
     around a1 (error ~ d^3/R^2, < 1 mm below 1 km)."""
     def loc(p):
+        dlon = (p[1] - a1[1] + 180.0) % 360.0 - 180.0      # shortest way round (antimeridian)
         return (math.radians(p[0] - a1[0]) * R_EARTH,
-                math.radians(p[1] - a1[1]) * R_EARTH * math.cos(math.radians((p[0] + a1[0]) / 2)))
+                math.radians(dlon) * R_EARTH * math.cos(math.radians((p[0] + a1[0]) / 2)))
     return p_segseg(loc(a1), loc(a2), loc(b1), loc(b2))
 
 
